@@ -183,6 +183,18 @@ def judge (T : Tables) (stream : Bytes) (outs : List Bytes) : Verdict :=
     | some (k, true) => if k < reqs.length then .misfit k else .count reqs.length (k + 1)
     | some (k, false) => .count reqs.length k
 
+/-- judge a run that ended because the peer went away (a `sendall` failed): what was delivered are whole
+lines, and the replies among them answer the first request lines, one fitting reply each, in order;
+the last request lines may be unanswered -/
+def judgeGone (T : Tables) (stream : Bytes) (outs : List Bytes) : Verdict :=
+  match outs.findIdx? (fun o => !wholeLine o) with
+  | some i => .split i
+  | none =>
+    let reqs := (splitLines stream).lines
+    match scan T 0 reqs outs with
+    | some (k, true) => if k < reqs.length then .misfit k else .count reqs.length (k + 1)
+    | _ => .ok
+
 /-- the module part of a specifier `module[:accessible]` -/
 def moduleOf (spec : Bytes) : Bytes := spec.takeWhile (· != 58)
 
